@@ -355,3 +355,15 @@ func GoCamelCase(s string) string {
 	}
 	return string(b)
 }
+
+// L scales a string-length bound with the tier: n in the quick tier, a larger bound in the
+// thorough tier (n+2 up to 4, n+4 beyond).
+func L(n int) int {
+	if !Thorough() {
+		return n
+	}
+	if n <= 4 {
+		return n + 2
+	}
+	return n + 4
+}
